@@ -1,0 +1,60 @@
+//! Verification hooks, compiled only with `--cfg tough_verif`.
+//!
+//! The only hook is a scripted clock: a process-global list of offsets (in seconds) that is added
+//! to the time sampled by the datastore's `system_time`. Sample `i` uses `script[i]`; once the
+//! script is exhausted the last offset is repeated. Every adjusted sample is recorded so that a
+//! harness can observe when, and with which value, the library looked at the clock.
+
+use chrono::{DateTime, Duration, Utc};
+use std::sync::Mutex;
+
+#[derive(Debug)]
+struct Clock {
+    script: Vec<i64>,
+    pos: usize,
+    samples: Vec<i64>,
+    fixed_base: Option<i64>,
+}
+
+static CLOCK: Mutex<Clock> = Mutex::new(Clock {
+    script: Vec::new(),
+    pos: 0,
+    samples: Vec::new(),
+    fixed_base: None,
+});
+
+/// Install a clock script (offsets in seconds) and forget recorded samples.
+pub fn set_clock_script(script: Vec<i64>) {
+    let mut c = CLOCK.lock().unwrap();
+    c.script = script;
+    c.pos = 0;
+    c.samples.clear();
+}
+
+/// Make the sampled time `base + offset` (unix seconds) instead of `now + offset`.
+pub fn set_fixed_base(base: Option<i64>) {
+    CLOCK.lock().unwrap().fixed_base = base;
+}
+
+/// Return and clear the recorded samples (unix seconds after adjustment).
+pub fn drain_samples() -> Vec<i64> {
+    std::mem::take(&mut CLOCK.lock().unwrap().samples)
+}
+
+pub(crate) fn adjust(now: DateTime<Utc>) -> DateTime<Utc> {
+    let mut c = CLOCK.lock().unwrap();
+    let off = if c.script.is_empty() {
+        0
+    } else {
+        let i = c.pos.min(c.script.len() - 1);
+        c.script[i]
+    };
+    c.pos += 1;
+    let base = match c.fixed_base {
+        Some(b) => DateTime::<Utc>::from_timestamp(b, 0).unwrap_or(now),
+        None => now,
+    };
+    let t = base + Duration::seconds(off);
+    c.samples.push(t.timestamp());
+    t
+}
